@@ -39,6 +39,9 @@ def run(ctx):
         "interp_cross_checked_values": checked,
         "tlc_runs": stats["tlc_runs"], **counters,
     }
+    if not quick:
+        import repotests          # the repository's own tests, recorded and validated against EKFCalls.tla
+        cov["repo_tests"] = repotests.run(ctx, "C01")
     return finish(ctx, "model_checking", cov,
                   ["TLC's exact rational arithmetic (Rational.tla) is the oracle on the rational fragment",
                    "reference interpreter over Python math for elementary functions, cross-checked against TLC on every run",
